@@ -504,16 +504,16 @@ PROPS = {
         suites=['pools'],
         rule='pools suite: sequential histories over 2-3 server connections sharing the library\'s pools under GOMAXPROCS(1) (sync.Pool then hands a returned object straight to the next Get): open (takeover / no takeover), '
              'compressed and plain messages of 40..40000 bytes tagged with their connection, partial reads, read to the end, reading AGAIN after the end, abandoning a message, a Close frame after the first '
-             'fragment of a compressed message, CloseNow and a read on the abandoned reader afterwards; plus the two historical witnesses. The pool hooks record Get / Put / Use of every flate reader per connection. '
+             'fragment of a compressed message, CloseNow and a read on the abandoned reader afterwards; compressed messages WRITTEN by the library (Write, two in a row, a streamed message left unfinished, CloseNow under it, a new connection afterwards); plus the historical witnesses. The pool hooks record Get / Put / Use of every flate reader and flate writer per connection. '
              'Judge: every byte returned by a read carries its own connection\'s tag. Tie: the observed Get/Put/Use events drive Model/Pools.v (a Get of a held object, a Put by a non-holder or a Use of an object not held '
              'is a violation). non-trivial = histories with >= 2 messages; distinct = distinct case line',
         trusted=COMMON_TRUSTED + ['Model/Pools.v abstracts data to object ownership (which connection holds which pooled flate reader and what its limitReader points to); flate/bufio objects deliver bytes of the source they were last Reset onto (assumed)',
-                                  'only the flate reader pool is hooked; bufio readers/writers, flate writers, sliding windows and the wsjson buffer pool are covered by the byte-tag judge only'],
+                                  'the flate reader and flate writer pools are hooked (the write side of a connection is a holder of its own in the replay); bufio readers/writers, sliding windows and the wsjson buffer pool are covered by the byte-tag judge and the round-trip suites only'],
         assumptions=['sync.Pool returns a pooled object or none (any choice); GOMAXPROCS(1) makes reuse reproducible in the suite'],
         not_covered=['concurrent (multi-goroutine) interleavings of pool use across connections: sequential histories only; race detector in the thorough tier of C05'],
         level_text='Theorem pools_isolated: for every history of any number of connections (read again after end of message, abandon, close at any moment incl. from underneath a Read, reuse by new connections) every use of a pooled '
-                   'flate reader happens while the using connection — and no other — holds it, and it is not in the pool. Tie: hook-recorded Get/Put/Use events replayed in the model; judge: no foreign byte in any read.',
-        level_note='ownership model of the flate reader; other pools by the judge only.',
+                   'flate object happens while the using connection — and no other — holds it, and it is not in the pool. Tie: hook-recorded Get/Put/Use events replayed in the model; judge: no foreign byte in any read.',
+        level_note='ownership model replayed for the flate reader and the flate writer pools; other pools by the judge only.',
         technique='Coq proof (6-part ownership invariant over arbitrary histories) + replay of hook-recorded pool events + connection-tagged payloads',
     ),
     'C11': dict(
